@@ -16,12 +16,12 @@ Definition value18 (t0 t1 t2 t3 t4 t5 t6 t7 t8 t9 t10 t11 t12 t13 t14 t15 t16 t1
 (* ---------- (a) unpacking: 17 x uint64 -> 18 x uint32 ------------------------------------------------------- *)
 (* how one 64-bit word is cut: a word at an even position into 29 + 28 + 7 bits, at an odd position into 28 + 29 + 7 *)
 Lemma split_even : forall b, b <= 18446744073709551615 ->
-  b = b mod 536870912 + 536870912 * (b mod 4294967296 / 536870912 + (b / 4294967296 * 8) mod 268435456)
+  b = b mod 536870912 + 536870912 * (b mod 4294967296 / 536870912 + b / 4294967296 mod 33554432 * 8)
       + 144115188075855872 * (b / 4294967296 / 33554432).
 Proof. intros b H. lia. Qed.
 
 Lemma split_odd : forall b, b <= 18446744073709551615 ->
-  b = b mod 268435456 + 268435456 * (b mod 4294967296 / 268435456 + (b / 4294967296 * 16) mod 536870912)
+  b = b mod 268435456 + 268435456 * (b mod 4294967296 / 268435456 + b / 4294967296 mod 33554432 * 16)
       + 144115188075855872 * (b / 4294967296 / 33554432).
 Proof. intros b H. lia. Qed.
 
@@ -45,71 +45,126 @@ Proof.
   unfold unpack_post. split; [repeat split; by_bounds|]. split; [by_bounds|].
   pose proof (split_even b_0 H0) as S0.
   set (pa0 := b_0 mod 536870912) in *; set (pb0 := b_0 mod 4294967296 / 536870912) in *;
-  set (pc0 := (b_0 / 4294967296 * 8) mod 268435456) in *; set (pd0 := b_0 / 4294967296 / 33554432) in *;
+  set (pc0 := b_0 / 4294967296 mod 33554432 * 8) in *; set (pd0 := b_0 / 4294967296 / 33554432) in *;
   clearbody pa0 pb0 pc0 pd0.
   pose proof (split_odd b_1 H1) as S1.
   set (pa1 := b_1 mod 268435456) in *; set (pb1 := b_1 mod 4294967296 / 268435456) in *;
-  set (pc1 := (b_1 / 4294967296 * 16) mod 536870912) in *; set (pd1 := b_1 / 4294967296 / 33554432) in *;
+  set (pc1 := b_1 / 4294967296 mod 33554432 * 16) in *; set (pd1 := b_1 / 4294967296 / 33554432) in *;
   clearbody pa1 pb1 pc1 pd1.
   pose proof (split_even b_2 H2) as S2.
   set (pa2 := b_2 mod 536870912) in *; set (pb2 := b_2 mod 4294967296 / 536870912) in *;
-  set (pc2 := (b_2 / 4294967296 * 8) mod 268435456) in *; set (pd2 := b_2 / 4294967296 / 33554432) in *;
+  set (pc2 := b_2 / 4294967296 mod 33554432 * 8) in *; set (pd2 := b_2 / 4294967296 / 33554432) in *;
   clearbody pa2 pb2 pc2 pd2.
   pose proof (split_odd b_3 H3) as S3.
   set (pa3 := b_3 mod 268435456) in *; set (pb3 := b_3 mod 4294967296 / 268435456) in *;
-  set (pc3 := (b_3 / 4294967296 * 16) mod 536870912) in *; set (pd3 := b_3 / 4294967296 / 33554432) in *;
+  set (pc3 := b_3 / 4294967296 mod 33554432 * 16) in *; set (pd3 := b_3 / 4294967296 / 33554432) in *;
   clearbody pa3 pb3 pc3 pd3.
   pose proof (split_even b_4 H4) as S4.
   set (pa4 := b_4 mod 536870912) in *; set (pb4 := b_4 mod 4294967296 / 536870912) in *;
-  set (pc4 := (b_4 / 4294967296 * 8) mod 268435456) in *; set (pd4 := b_4 / 4294967296 / 33554432) in *;
+  set (pc4 := b_4 / 4294967296 mod 33554432 * 8) in *; set (pd4 := b_4 / 4294967296 / 33554432) in *;
   clearbody pa4 pb4 pc4 pd4.
   pose proof (split_odd b_5 H5) as S5.
   set (pa5 := b_5 mod 268435456) in *; set (pb5 := b_5 mod 4294967296 / 268435456) in *;
-  set (pc5 := (b_5 / 4294967296 * 16) mod 536870912) in *; set (pd5 := b_5 / 4294967296 / 33554432) in *;
+  set (pc5 := b_5 / 4294967296 mod 33554432 * 16) in *; set (pd5 := b_5 / 4294967296 / 33554432) in *;
   clearbody pa5 pb5 pc5 pd5.
   pose proof (split_even b_6 H6) as S6.
   set (pa6 := b_6 mod 536870912) in *; set (pb6 := b_6 mod 4294967296 / 536870912) in *;
-  set (pc6 := (b_6 / 4294967296 * 8) mod 268435456) in *; set (pd6 := b_6 / 4294967296 / 33554432) in *;
+  set (pc6 := b_6 / 4294967296 mod 33554432 * 8) in *; set (pd6 := b_6 / 4294967296 / 33554432) in *;
   clearbody pa6 pb6 pc6 pd6.
   pose proof (split_odd b_7 H7) as S7.
   set (pa7 := b_7 mod 268435456) in *; set (pb7 := b_7 mod 4294967296 / 268435456) in *;
-  set (pc7 := (b_7 / 4294967296 * 16) mod 536870912) in *; set (pd7 := b_7 / 4294967296 / 33554432) in *;
+  set (pc7 := b_7 / 4294967296 mod 33554432 * 16) in *; set (pd7 := b_7 / 4294967296 / 33554432) in *;
   clearbody pa7 pb7 pc7 pd7.
   pose proof (split_even b_8 H8) as S8.
   set (pa8 := b_8 mod 536870912) in *; set (pb8 := b_8 mod 4294967296 / 536870912) in *;
-  set (pc8 := (b_8 / 4294967296 * 8) mod 268435456) in *; set (pd8 := b_8 / 4294967296 / 33554432) in *;
+  set (pc8 := b_8 / 4294967296 mod 33554432 * 8) in *; set (pd8 := b_8 / 4294967296 / 33554432) in *;
   clearbody pa8 pb8 pc8 pd8.
   pose proof (split_odd b_9 H9) as S9.
   set (pa9 := b_9 mod 268435456) in *; set (pb9 := b_9 mod 4294967296 / 268435456) in *;
-  set (pc9 := (b_9 / 4294967296 * 16) mod 536870912) in *; set (pd9 := b_9 / 4294967296 / 33554432) in *;
+  set (pc9 := b_9 / 4294967296 mod 33554432 * 16) in *; set (pd9 := b_9 / 4294967296 / 33554432) in *;
   clearbody pa9 pb9 pc9 pd9.
   pose proof (split_even b_10 H10) as S10.
   set (pa10 := b_10 mod 536870912) in *; set (pb10 := b_10 mod 4294967296 / 536870912) in *;
-  set (pc10 := (b_10 / 4294967296 * 8) mod 268435456) in *; set (pd10 := b_10 / 4294967296 / 33554432) in *;
+  set (pc10 := b_10 / 4294967296 mod 33554432 * 8) in *; set (pd10 := b_10 / 4294967296 / 33554432) in *;
   clearbody pa10 pb10 pc10 pd10.
   pose proof (split_odd b_11 H11) as S11.
   set (pa11 := b_11 mod 268435456) in *; set (pb11 := b_11 mod 4294967296 / 268435456) in *;
-  set (pc11 := (b_11 / 4294967296 * 16) mod 536870912) in *; set (pd11 := b_11 / 4294967296 / 33554432) in *;
+  set (pc11 := b_11 / 4294967296 mod 33554432 * 16) in *; set (pd11 := b_11 / 4294967296 / 33554432) in *;
   clearbody pa11 pb11 pc11 pd11.
   pose proof (split_even b_12 H12) as S12.
   set (pa12 := b_12 mod 536870912) in *; set (pb12 := b_12 mod 4294967296 / 536870912) in *;
-  set (pc12 := (b_12 / 4294967296 * 8) mod 268435456) in *; set (pd12 := b_12 / 4294967296 / 33554432) in *;
+  set (pc12 := b_12 / 4294967296 mod 33554432 * 8) in *; set (pd12 := b_12 / 4294967296 / 33554432) in *;
   clearbody pa12 pb12 pc12 pd12.
   pose proof (split_odd b_13 H13) as S13.
   set (pa13 := b_13 mod 268435456) in *; set (pb13 := b_13 mod 4294967296 / 268435456) in *;
-  set (pc13 := (b_13 / 4294967296 * 16) mod 536870912) in *; set (pd13 := b_13 / 4294967296 / 33554432) in *;
+  set (pc13 := b_13 / 4294967296 mod 33554432 * 16) in *; set (pd13 := b_13 / 4294967296 / 33554432) in *;
   clearbody pa13 pb13 pc13 pd13.
   pose proof (split_even b_14 H14) as S14.
   set (pa14 := b_14 mod 536870912) in *; set (pb14 := b_14 mod 4294967296 / 536870912) in *;
-  set (pc14 := (b_14 / 4294967296 * 8) mod 268435456) in *; set (pd14 := b_14 / 4294967296 / 33554432) in *;
+  set (pc14 := b_14 / 4294967296 mod 33554432 * 8) in *; set (pd14 := b_14 / 4294967296 / 33554432) in *;
   clearbody pa14 pb14 pc14 pd14.
   pose proof (split_odd b_15 H15) as S15.
   set (pa15 := b_15 mod 268435456) in *; set (pb15 := b_15 mod 4294967296 / 268435456) in *;
-  set (pc15 := (b_15 / 4294967296 * 16) mod 536870912) in *; set (pd15 := b_15 / 4294967296 / 33554432) in *;
+  set (pc15 := b_15 / 4294967296 mod 33554432 * 16) in *; set (pd15 := b_15 / 4294967296 / 33554432) in *;
   clearbody pa15 pb15 pc15 pd15.
   pose proof (split_top b_16 H16) as S16.
   set (pa16 := b_16 mod 536870912) in *; set (pb16 := b_16 mod 4294967296 / 536870912) in *;
   set (pc16 := b_16 / 4294967296 * 8) in *; clearbody pa16 pb16 pc16.
   unfold value18, value17. num_pows.
   euclid_pairs. subst_defs. clear_bounds. lia.
+Qed.
+
+(* ---------- (b) one elimination step ------------------------------------------------------------------------- *)
+(* p = 2^256 - 2^224 - 2^96 + 2^64 - 1.  Eliminating the lowest limb x of the window adds x*p: the limb becomes 0
+   (x + x*p = x*(2^256 - 2^224 - 2^96 + 2^64)), the multiples of 2^64 and 2^256 are added and those of 2^96 and 2^224
+   subtracted further up, with borrows (the conservative `< 0x20000000` / `< 0x10000000` tests, set4/set7 resp.
+   set5/set8/set9).  Windows: even step tmp[i..i+9] (29-bit limb first), odd step tmp[i+1..i+10] (28-bit limb first). *)
+Definition pN : N := 115792089210356248756420345214020892766250353991924191454421193933289684991999.
+Lemma pN_is_p : pN = sm2p.
+Proof. reflexivity. Qed.
+
+Definition value10e (t0 t1 t2 t3 t4 t5 t6 t7 t8 t9 : N) : N :=
+  t0 + 2^29 * t1 + 2^57 * t2 + 2^86 * t3 + 2^114 * t4 + 2^143 * t5 + 2^171 * t6 + 2^200 * t7 + 2^228 * t8 + 2^257 * t9.
+Definition value10o (t1 t2 t3 t4 t5 t6 t7 t8 t9 t10 : N) : N :=
+  t1 + 2^28 * t2 + 2^57 * t3 + 2^85 * t4 + 2^114 * t5 + 2^142 * t6 + 2^171 * t7 + 2^199 * t8 + 2^228 * t9 + 2^256 * t10.
+
+(* (c) the bound invariant of the loop, by relative position in the window.  Found by interval simulation, checked
+   here: under PE no operation of the even step wraps and its results satisfy PO (shifted by one limb); under PO no
+   operation of the odd step wraps and its results satisfy PE (shifted).  The next untouched limb enters a window
+   normalised (< 2^28 at position 9 of an even window, < 2^29 at position 10 of an odd window). *)
+Definition PE (t0 t1 t2 t3 t4 t5 t6 t7 t8 t9 : N) : Prop :=
+  t0 <= 1610612737 /\ t1 <= 805306366 /\ t2 <= 1073741950 /\ t3 <= 536870911 /\ t4 <= 1073741823 /\ t5 <= 536870911 /\ t6 <= 1073741823 /\ t7 <= 536870911 /\ t8 <= 805306366 /\ t9 <= 268435455.
+Definition PO (t1 t2 t3 t4 t5 t6 t7 t8 t9 t10 : N) : Prop :=
+  t1 <= 805306369 /\ t2 <= 1610612734 /\ t3 <= 536871038 /\ t4 <= 1073741823 /\ t5 <= 536870911 /\ t6 <= 1073741823 /\ t7 <= 536870911 /\ t8 <= 1073741823 /\ t9 <= 536870910 /\ t10 <= 536870911.
+
+Definition even_post (t0 t1 t2 t3 t4 t5 t6 t7 t8 t9 : N) (out : N*N*N*N*N*N*N*N*N*N) : Prop :=
+  let '(o0, o1, o2, o3, o4, o5, o6, o7, o8, o9) := out in
+  o0 = 0 /\ (o1 <= 805306369 /\ o2 <= 1610612734 /\ o3 <= 536871038 /\ o4 <= 1073741823 /\ o5 <= 536870911 /\ o6 <= 1073741823 /\ o7 <= 536870911 /\ o8 <= 1073741823 /\ o9 <= 536870910) /\
+  value10e o0 o1 o2 o3 o4 o5 o6 o7 o8 o9 = value10e t0 t1 t2 t3 t4 t5 t6 t7 t8 t9 + (t0 mod 536870912) * pN.
+
+Definition odd_post (t1 t2 t3 t4 t5 t6 t7 t8 t9 t10 : N) (out : N*N*N*N*N*N*N*N*N*N) : Prop :=
+  let '(o1, o2, o3, o4, o5, o6, o7, o8, o9, o10) := out in
+  o1 = 0 /\ (o2 <= 1610612737 /\ o3 <= 805306366 /\ o4 <= 1073741950 /\ o5 <= 536870911 /\ o6 <= 1073741823 /\ o7 <= 536870911 /\ o8 <= 1073741823 /\ o9 <= 536870911 /\ o10 <= 805306366) /\
+  value10o o1 o2 o3 o4 o5 o6 o7 o8 o9 o10 = value10o t1 t2 t3 t4 t5 t6 t7 t8 t9 t10 + (t1 mod 268435456) * pN.
+
+Ltac step_leaf post vals :=
+  unfold post; split; [first [assumption|reflexivity]|]; split; [repeat split; by_bounds|];
+  unfold vals, pN; num_pows; leaf_linear.
+
+Theorem gen_rd_step_even_correct : forall t0 t1 t2 t3 t4 t5 t6 t7 t8 t9,
+  PE t0 t1 t2 t3 t4 t5 t6 t7 t8 t9 ->
+  even_post t0 t1 t2 t3 t4 t5 t6 t7 t8 t9 (gen_rd_step_even t0 t1 t2 t3 t4 t5 t6 t7 t8 t9).
+Proof.
+  intros t0 t1 t2 t3 t4 t5 t6 t7 t8 t9 H. unfold PE in H. repeat match goal with H : _ /\ _ |- _ => destruct H end.
+  cbv beta delta [gen_rd_step_even]. unfold_consts.
+  exec; step_leaf even_post value10e.
+Qed.
+
+Theorem gen_rd_step_odd_correct : forall t1 t2 t3 t4 t5 t6 t7 t8 t9 t10,
+  PO t1 t2 t3 t4 t5 t6 t7 t8 t9 t10 ->
+  odd_post t1 t2 t3 t4 t5 t6 t7 t8 t9 t10 (gen_rd_step_odd t1 t2 t3 t4 t5 t6 t7 t8 t9 t10).
+Proof.
+  intros t1 t2 t3 t4 t5 t6 t7 t8 t9 t10 H. unfold PO in H. repeat match goal with H : _ /\ _ |- _ => destruct H end.
+  cbv beta delta [gen_rd_step_odd]. unfold_consts.
+  exec; step_leaf odd_post value10o.
 Qed.
